@@ -524,6 +524,12 @@ def canonical(snap, labels=None, with_data=True):
                     a['created_at'], a['id'])):
                 if a['accepted']:
                     o = a['output']
+                    if 'is_sync' not in a and isinstance(o, dict) and \
+                            a['state'] in ('ERROR', 'CANCELLED'):
+                        # failed sub-workflow: the 'result' entry is a
+                        # human readable message, not data
+                        o = dict((k, v) for k, v in o.items()
+                                 if k != 'result')
                     if 'task_execution_id' in a and 'is_sync' in a:
                         o = (o or {}).get('result') if isinstance(o, dict) \
                             else o
